@@ -258,6 +258,27 @@ def compare_with_model(results):
     return diffs
 
 
+def safe_run_case(mod, c):
+    """run one case; an adapter crash is reported, never hidden. An exception that comes out of the implementation in a
+    call the adapter makes unconditionally (valid by construction, never raising on the pinned tree) is a behaviour of
+    the implementation (clause implementation-raised), anything else is a harness defect (clause harness-error)."""
+    try:
+        return mod.run_case(c)
+    except Exception:  # noqa
+        r = CaseResult()
+        frames = traceback.extract_tb(sys.exc_info()[2])
+        try:
+            import trie as _trie
+            pkg = os.path.dirname(os.path.realpath(_trie.__file__)) + os.sep
+        except Exception:  # noqa
+            pkg = None
+        if pkg and any(os.path.realpath(f.filename).startswith(pkg) for f in frames):
+            r.fail("implementation-raised", "a call that is valid by construction raised: " + traceback.format_exc()[-1200:])
+        else:
+            r.fail("harness-error", traceback.format_exc()[-1500:])
+        return r
+
+
 def _worker(args):
     modname, cases, want_model = args
     sys.path.insert(0, os.path.dirname(os.path.abspath(__file__)))
@@ -267,12 +288,7 @@ def _worker(args):
     results = []
     errors = []
     for c in cases:
-        try:
-            results.append(mod.run_case(c))
-        except Exception:  # adapter crashed: report, never hide
-            r = CaseResult()
-            r.fail("harness-error", traceback.format_exc()[-1500:])
-            results.append(r)
+        results.append(safe_run_case(mod, c))
     diffs = [None] * len(results)
     if want_model:
         try:
